@@ -1,9 +1,21 @@
-FIX_COMMITS = []
+FIX_COMMITS = ['ee63c4e', '8e72bfe', 'fac3c39', '803947b', '012bab8', 'dbf4700', '19f97fb', '925775e', 'cbd12ec', 'f843f54', '7a5e3b3', '35d5997']
 TODO = 'check not built yet in this revision (work in progress; see DESIGN.md section 7 for the planned solver-based check)'
 NOT_APPLICABLE = {('C%02d' % i): TODO for i in range(1, 21)}
 R_NOTE = ('R-model: floats are mathematical reals, float literals are the decimal rationals written in the source, '
           'transcendental functions are uninterpreted with sound axiom instances; IEEE rounding is outside the claim. ')
 CHECKS = {
+    'C03': {
+        'text': 'Bounded symbolic execution + SMT: Ellipsoid.__init__, llh2xyz (float and angle-object arguments, both branches of '
+                'the equator test) and xyz2llh (latitude loop unrolled to K=4/6 passes) run on a symbolic ellipsoid (a, 1/f), '
+                'position, height and Cartesian point; every returning path is proved identical to the closed form / the published '
+                'fixed-point algorithm (cancellation-free height), every exit is proved to bound the last latitude step by 1.1e-10 rad, '
+                'longitude range follows from the atan2 axioms. Failing or undecided queries go to a witness search and are replayed '
+                'on the un-instrumented code against a 40-digit closed-form oracle (which includes near-pole and 40 000 km points).',
+        'design_ref': 'DESIGN.md section 7 C03',
+        'note': R_NOTE + 'Convergence of the latitude iteration within K passes and all IEEE effects (including the near-pole '
+                'cancellation repaired in 35d5997, which only the replay oracle can see) are outside the solver claim.',
+        'technique': 'symbolic execution of the real Python source + SMT (z3 NRA with uninterpreted sin/cos/atan/sqrt), witness replay',
+    },
     'C07': {
         'text': 'Bounded symbolic execution + SMT: conform14, Transformation.__add__/__neg__ and the ATRF2014<->GDA2020 wrappers '
                 '(real source) run with the epoch a symbolic date (integer day offset in [-30000, 30000]), a symbolic point '
